@@ -171,6 +171,17 @@ PROPS["C15"] = {
     ],
 }
 
+PROPS["C02"] = {
+    "technique": "property-based testing (rapid): generated epochs loaded in-process, every archived slot and signature queried over JSON-RPC (4 encodings) and gRPC (unary + Get stream) and compared with the generator's ground truth",
+    "level_text": "1..3 generated epochs (including epoch 0 with the mainnet genesis archive) are indexed with the real `index all`, loaded with NewEpochFromConfig into a MultiEpoch with search concurrency -1/0/1/2/NumCPU, and every block and every transaction is fetched through newMultiEpochHandler (getBlock, getTransaction, getBlockTime; encodings base58, base64, base64+zstd, json, default) and through the gRPC methods GetBlock, GetTransaction, GetBlockTime and the bidirectional Get stream. Slot, parent slot, block time, block height, blockhash, previous blockhash, transaction order, transaction bytes (decoded from the requested encoding), metadata fields / raw metadata bytes and rewards are compared with what the generator wrote. Exploration level.",
+    "level_note": "Blocks of this property have >= 1 entry; epochs without recorded transaction positions are compared as sets; slot 0 of epoch 0 (genesis special case) is compared on slot/transactions/blockhash only; jsonParsed needs the Rust FFI and is not covered. Trusted: solana-go, protobuf, zstd, reference IPLD encoder.",
+    "rule": ("rapid draws 1..3 epoch specs (distinct epoch numbers), concurrency and an encoding rotation; every block and transaction of every loaded epoch is queried. non-trivial = >=2 epochs loaded and (a block with >=2 transactions over >=2 entries or a transaction with multi-frame metadata); distinct by case hash"),
+    "assumptions": ["the handler is called in-process through fasthttp.RequestCtx.Init (no network stack)"],
+    "units": [
+        {"name": "rpc", "pkg": ".", "run": "TestVfC02", "checks": T(48, 1600), "shards": T(8, 16), "timeout": T(900, 3000), "env": ROOT_ENV},
+    ],
+}
+
 
 # properties not (yet) claimed by a check; kept current by hand
 NOT_APPLICABLE = [
